@@ -311,7 +311,54 @@ func runC12(c *core.Ctx) {
 	importObligations(c, runC01, "R8", func(o *core.Obligation) bool { return o.Rule == "R5" })
 	// one pooled buffer handed to two owners is written by both
 	c.Rule("R9", "a pooled buffer has one owner: not recycled while queued, not recycled twice (shared with C10-R1/R4/R6)", 2)
-	importObligations(c, runC10, "R9", func(o *core.Obligation) bool { return o.Rule == "R1" || o.Rule == "R4" || o.Rule == "R6" })
+	importObligations(c, runC10, "R9", func(o *core.Obligation) bool {
+		return o.Rule == "R1" || o.Rule == "R3" || o.Rule == "R4" || o.Rule == "R6"
+	})
+	importObligations(c, runC06, "R5", func(o *core.Obligation) bool { return o.Rule == "R2" })
+	// a method with a value receiver works on a copy of the struct: its Lock locks nothing, its CAS elects nobody
+	c.Rule("R11", "structs that hold a mutex or atomically accessed state have pointer-receiver methods only", 3)
+	atomicField := map[*types.Var]bool{}
+	for _, fn := range p.Funcs {
+		core.AllInstrs(fn, func(in ssa.Instruction) {
+			if a := core.AsAtomic(in); a != nil && a.Field != nil {
+				atomicField[a.Field] = true
+			}
+		})
+	}
+	for _, tg := range targets {
+		needs := ""
+		for _, f := range fieldsOfNamed(tg.n) {
+			switch {
+			case core.NamedIs(f.Type(), "sync", "Mutex"), core.NamedIs(f.Type(), "sync", "RWMutex"), core.NamedIs(f.Type(), "sync", "Once"), core.NamedIs(f.Type(), "sync", "WaitGroup"):
+				needs = "field " + f.Name() + " is a " + f.Type().String()
+			case atomicField[f]:
+				needs = "field " + f.Name() + " is accessed atomically"
+			case strings.HasPrefix(f.Type().String(), "sync/atomic."):
+				needs = "field " + f.Name() + " is a " + f.Type().String()
+			}
+		}
+		if needs == "" || tg.n.NumMethods() == 0 {
+			continue
+		}
+		c.Instance("R11")
+		bad := ""
+		for i := 0; i < tg.n.NumMethods(); i++ {
+			m := tg.n.Method(i)
+			sig, _ := m.Type().(*types.Signature)
+			if sig == nil || sig.Recv() == nil {
+				continue
+			}
+			if _, isPtr := sig.Recv().Type().(*types.Pointer); !isPtr {
+				bad = m.Name()
+			}
+		}
+		name := "pointer-receivers/" + tg.n.Obj().Name()
+		if bad != "" {
+			c.Bad("R11", name, p.Pos(tg.n.Method(0).Pos()), "method "+bad+" has a value receiver although "+needs+": every call works on its own copy of the lock / flag (no mutual exclusion, no single sender)")
+		} else {
+			c.OK("R11", name, "", "all methods have pointer receivers ("+needs+")")
+		}
+	}
 	// concurrent calls of one operation may share their argument slices (`opts := ...; go Connect(url, opts...)`)
 	c.Rule("R10", "a variadic parameter is the caller's slice: never appended to in place or written through", 5)
 	for _, fn := range p.Funcs {
